@@ -1400,7 +1400,12 @@ pub fn run(prop: &str, _params: &Params) {
   let trust_label: Option<String> = if ctx::chance(1, 3) { Some(format!("trusted-{:08x}", ctx::choose(1 << 30))) } else { None };
   let mut events: Vec<SignEvent> = Vec::new();
   let mut notices: Vec<Notice> = Vec::new();
-  let count = 3 + ctx::choose(8);
+  let count = if ctx::chance(1, 50) {
+    ctx::stat("probe.long_history");
+    20 + ctx::choose(20)
+  } else {
+    3 + ctx::choose(8)
+  };
   for _ in 0..count {
     let n = if prop == "C08" && ctx::choose(3) == 0 {
       let stored: Vec<usize> = signers.iter().enumerate().filter(|(_, s)| matches!(s.kind, SignerKind::Stored(_))).map(|(i, _)| i).collect();
